@@ -13,6 +13,8 @@ import (
 	"math/big"
 	"reflect"
 	"runtime"
+	"strconv"
+	"strings"
 	"sync"
 	"sync/atomic"
 	"testing"
@@ -115,10 +117,33 @@ func genCase(t *rapid.T) Case {
 		c.Pool = append(c.Pool, Operand{D: a}, Operand{D: b})
 		np += 2
 	}
+	// Exp of arguments whose result lands at the bottom of a package-limit context: the
+	// large-argument path with its special handling near the limits, requested from several
+	// goroutines that share the context with everything else in the list.
+	expPair := -1
+	if gen.Pick(t, 5, "explimit") == 0 {
+		lc := core.Ctx{P: uint32(rapid.IntRange(1, 9).Draw(t, "elp")), Emax: gen.Limit, Emin: -gen.Limit, Rounding: c.Ctx0Rounding()}
+		c.Ctxs = append(c.Ctxs, lc)
+		nctx++
+		k := float64(-gen.Limit + rapid.IntRange(-12, 12).Draw(t, "elk"))
+		v := k * 2.302585092994046
+		str := strings.Replace(strconv.FormatFloat(-v, 'f', 6, 64), ".", "", 1)
+		expPair = len(c.Pool)
+		c.Pool = append(c.Pool, Operand{D: core.Dec{Coeff: str, Exp: -6, Neg: true}}, Operand{D: core.Dec{Coeff: "1", Exp: 5000}})
+		np += 2
+	}
 	ni := rapid.IntRange(4, 24).Draw(t, "nitems")
 	for i := 0; i < ni; i++ {
 		it := Item{Op: opsList[gen.Pick(t, len(opsList), "op")], Ctx: gen.Pick(t, nctx, "ictx"), X: gen.Pick(t, np, "ix"), Y: gen.Pick(t, np, "iy")}
 		it.QExp = int32(rapid.IntRange(-6, 6).Draw(t, "q"))
+		if expPair >= 0 && gen.Pick(t, 3, "useexp") == 0 {
+			it.Ctx = nctx - 1
+			if rapid.Bool().Draw(t, "expor") {
+				it.Op, it.X = "exp", expPair
+			} else {
+				it.Op, it.X = []string{"round", "r.string", "abs", "reduce"}[gen.Pick(t, 4, "expother")], expPair+1
+			}
+		}
 		if samePair >= 0 && gen.Pick(t, 3, "usepair") == 0 {
 			it.Op = []string{"r.cmp", "r.cmptotal", "cmp"}[gen.Pick(t, 3, "pairop")]
 			it.X, it.Y = samePair, samePair+1
@@ -329,3 +354,11 @@ func check(c Case, st *core.Stats) error {
 
 func TestC18(t *testing.T)       { core.Run(t, "C18", genCase, check) }
 func TestC18Replay(t *testing.T) { core.Replay(t, "C18", check) }
+
+// Ctx0Rounding is the rounding mode of the first context of the case.
+func (c Case) Ctx0Rounding() string {
+	if len(c.Ctxs) > 0 {
+		return c.Ctxs[0].Rounding
+	}
+	return "half_even"
+}
